@@ -120,7 +120,9 @@ def bad_value(bad, y, sd, he):
 def dump_real(fl):
     n = fl.Xn + 1
     rows = []
-    S = np.asarray(fl.S).reshape(np.shape(fl.S)[0], -1) if fl.noise_flag else None     # rank-tolerant: the dump must not fail where the logger did not
+    S = np.asarray(fl.S) if fl.noise_flag else None     # rank-tolerant: the dump must not fail where the logger did not
+    if S is not None:
+        S = S.reshape(S.shape[0], -1) if S.size else S.reshape(0, 1)
     for i in range(n):
         s2 = None
         if fl.noise_flag and not math.isnan(S[i, 0]):
@@ -188,6 +190,8 @@ def run_real(cfg, ops):
                 res = "ValueError"
             except Exception as ex:  # any other class is reported as is
                 res = type(ex).__name__
+        o["_xo"] = xo                                   # where the observation is made, by the independent oracle
+        o["_seen"] = cur.pop("xo", None) if o["op"] == "call" else None      # what the target was handed
         trace.append((res, dump_real(fl)))
         oracle.append(xo)
     return trace, oracle
@@ -255,6 +259,10 @@ REQUIRES = ["PV.Model.Val", "PV.Model.Logger"]
 
 # ----------------------------------------------------------------------------- monitor (property restated on observables)
 
+def _close(a, b):
+    return len(a) == len(b) and all(abs(p - q) <= 1e-12 * max(1.0, abs(p), abs(q)) for p, q in zip(a, b))
+
+
 def monitor(cfg, ops, trace):
     """Declarative oracle, independent of the Coq model: replays the sequence against a dict of
     per-point observation lists and checks the log after every op.  Returns None or a description."""
@@ -278,13 +286,15 @@ def monitor(cfg, ops, trace):
                 elif he and any(r[0] == x for r in recs):
                     [r for r in recs if r[0] == x][0][1].append((o["y"], o["sd"]))
                 else:
-                    recs.append([x, [(o["y"], o["sd"] if he else None)], 0])
+                    recs.append([x, [(o["y"], o["sd"] if he else None)], 0, o.get("_xo")])
             else:
                 sd = (o["sd"] if o["sd"] is not None else 1) if cfg["level"] > 0 else None
                 if sd is not None and any(r[0] == x for r in recs):
                     [r for r in recs if r[0] == x][0][1].append((o["y"], sd))
                 else:
-                    recs.append([x, [(o["y"], sd)], 0])
+                    recs.append([x, [(o["y"], sd)], 0, o.get("_xo")])
+        if o["op"] == "call" and o.get("_seen") is not None and o.get("_xo") is not None and not _close(o["_seen"], o["_xo"]):
+            return f"op {k}: the target was called at {o['_seen']} but internal point {o['x']} is {o['_xo']} in the original space"
         if st["fc"] != fc:
             return f"op {k}: func_count {st['fc']} != valid calls {fc}"
         if len(st["rows"]) != len(recs):
@@ -296,6 +306,8 @@ def monitor(cfg, ops, trace):
             xo, x, yo, y, s2, n = row
             if x != r[0]:
                 return f"op {k}: row {i} internal point {x} != {r[0]} (call order broken)"
+            if r[3] is not None and not _close(xo, r[3]):
+                return f"op {k}: row {i} is logged at original-space location {xo}, the observation was made at {r[3]} (internal point {x})"
             if n != len(r[1]) + r[2]:
                 return f"op {k}: row {i} n_evals {n} != {len(r[1]) + r[2]}"
             if yo != r[1][0][0]:
